@@ -177,6 +177,42 @@ def check(idx: Index, rep: Report, tier: str) -> str:
         r.fail(f.fq + ":returns", Finding("C21.R3", f.fq, "epilogue-missing", "not every return is preceded by an epilogue restoring the pushed registers", f.loc))
     if "if res.type in X86_CALLEE_SAVED_REGISTERS" in t:
         r.ok(f.fq + ":set", None)
+    # which operations are scanned for written callee-saved registers: only pure register getters may be left out
+    comps = [n for n in walk_local(f.node) if isinstance(n, (ast.GeneratorExp, ast.SetComp, ast.ListComp)) and any(call_attr(g.iter) == "walk" for g in n.generators if isinstance(g.iter, ast.Call))]
+    if len(comps) != 1:
+        raise AnalysisError(f"{f.fq}: scan of the function's operations for written registers not found")
+    gen = next(g for g in comps[0].generators if isinstance(g.iter, ast.Call) and call_attr(g.iter) == "walk")
+    opv = unparse(gen.target)
+    GETTERS = {"GetRegisterOp", "GetAVXRegisterOp", "GetMaskRegisterOp"}
+    for cond in gen.ifs:
+        ct = unparse(cond)
+        m_ = re.fullmatch(rf"not isinstance\({opv}, \(?((?:[\w.]+(?:, | \| )?)+)\)?\)", ct)
+        if m_ and {x.split(".")[-1] for x in re.split(r", | \| ", m_.group(1))} <= GETTERS:
+            r.ok(f.fq + ":scan", f"{f.loc} every operation except the register getters is scanned")
+            continue
+        if ct in (f"{opv}.operands", f"len({opv}.operands) > 0", f"len({opv}.operands) != 0", f"bool({opv}.operands)"):
+            # operations of the x86 dialect that define a register result without having an operand
+            mi_ops = idx.module("xdsl/dialects/x86/ops.py")
+            writers = []
+            for c_ in mi_ops.classes.values():
+                ops_, res_ = set(), set()
+                for k_ in idx.mro(c_):
+                    for n_, v_ in k_.class_assigns().items():
+                        if isinstance(v_, ast.Call):
+                            fn_ = unparse(v_.func).split(".")[-1]
+                            if fn_ in ("operand_def", "var_operand_def", "opt_operand_def"):
+                                ops_.add(n_)
+                            if fn_ in ("result_def", "var_result_def", "opt_result_def"):
+                                res_.add(n_)
+                if "name" in c_.class_assigns() and res_ and not ops_ and c_.name not in GETTERS:
+                    writers.append(c_.name)
+            if writers:
+                r.fail(f.fq + ":scan", Finding("C21.R3", f.fq, "writer-skipped", f"the scan for written callee-saved registers skips operations without operands (`{ct}`), but {writers} define a register result without having an operand (`mov r, imm`): a constant materialised in rbx / r12-r15 is not saved and the caller's value is lost", f.loc))
+            else:
+                r.ok(f.fq + ":scan", f"{f.loc} no operand-less x86 operation writes a register")
+            continue
+        if opv in {x.id for x in ast.walk(cond) if isinstance(x, ast.Name)}:
+            raise AnalysisError(f"{f.fq}: filter `{ct}` on the scanned operations not understood")
 
     r = rep.rule("C21.R4", "each arith operation is lowered to the x86 operation with the same stem", floor=4)
     v = idx.module(ARITH).assigns.get("X86_OP_BY_ARITH_BINARY_OP")
